@@ -1,4 +1,269 @@
-//! C04 monitor (not written yet).
-use crate::ctx::Ctx;
+//! C04 — accepted subtyping means decoding at the supertype cannot fail.
+use super::common::*;
+use crate::conv::*;
+use crate::corpus::registry::{self as reg, DecOut};
+use crate::ctx::{catch, hex, Ctx};
+use crate::gen::types::*;
+use crate::gen::upgrade::Upgrader;
+use crate::gen::values::ValGen;
+use crate::model::coerce::{Coercer, Hits};
+use crate::model::misc::{has_type, tilde};
+use crate::model::subtype as r3;
+use crate::model::wire::{decode, encodable, normalize_wire};
+use crate::model::*;
+use crate::rng::{hash_str, Rng};
+use candid::types::subtype::{subtype_with_config, Gamma, OptReport};
+use candid::{DecoderConfig, IDLArgs};
+use serde_json::json;
 
-pub fn run(_ctx: &mut Ctx) {}
+fn quota() -> DecoderConfig {
+    let mut c = DecoderConfig::new();
+    c.set_decoding_quota(5_000_000);
+    c
+}
+
+fn checker_accepts(env: &REnv, a: &RType, b: &RType) -> Option<bool> {
+    let cenv = to_candid_env(env, None);
+    let (ca, cb) = (to_candid_type(a, None), to_candid_type(b, None));
+    catch(|| subtype_with_config(OptReport::Silence, &mut Gamma::new(), &cenv, &ca, &cb).is_ok()).ok()
+}
+
+fn typed_as(env: &REnv, v: &RValue, t: &RType) -> bool {
+    // typing of decoder results: `reserved` positions hold reserved, nat at int has become int
+    has_type(env, v, t)
+}
+
+fn host_limit(err: &str, tname: &str) -> Option<&'static str> {
+    if err.contains("nat overflow") || err.contains("int overflow") || err.contains("Cannot convert nat to i128") {
+        return Some("128-bit-range");
+    }
+    if err.contains("invalid length") && tname.contains(';') {
+        return Some("array-length");
+    }
+    if err.contains("Trailing value") && tname.contains(';') {
+        return Some("array-length");
+    }
+    None
+}
+
+pub fn run(ctx: &mut Ctx) {
+    let cfg = TypeCfg::default();
+    // ---- untyped: chains t0 -> t1 -> t2 of upgrade steps ---------------------------------------------
+    ctx.cases("untyped-upgrade-chains", 0.6, |ctx, rng| {
+        let env0 = gen_env(rng, &cfg);
+        let t0s = gen_types(rng, &cfg, &env0, 1);
+        let t0 = t0s[0].clone();
+        if !encodable(&env0, &t0) {
+            return;
+        }
+        let mut up = Upgrader::new(&cfg);
+        up.illegal_pct = *rng.pick(&[0, 5, 25]);
+        up.edit_pct = 20 + rng.below(25);
+        let (env1, t1s) = up.up_env(rng, &env0, &t0s);
+        let (env2, t2s) = up.up_env(rng, &env1, &t1s);
+        let (t1, t2) = (t1s[0].clone(), t2s[0].clone());
+        // one merged environment: [env0 | env1 | env2]
+        let mut env = env0.clone();
+        let o1 = env.append(&env1);
+        let o2 = env.append(&env2);
+        if env.0.iter().any(|d| env.unfold(d).is_none()) {
+            return;
+        }
+        let ts = [t0.clone(), t1.shift_refs(o1), t2.shift_refs(o2)];
+        let vg = ValGen::new(&env);
+        let (cenv, _) = candid_side(&env, &[], None);
+        let pairs = [(0usize, 1usize), (1, 2), (0, 2)];
+        let mut accepted = [[false; 3]; 3];
+        for (a, b) in pairs {
+            let Some(ok) = checker_accepts(&env, &ts[a], &ts[b]) else {
+                ctx.violation("panic|subtype", "the subtype check panicked", json!({"env": env.to_string(), "t": ts[a].to_string(), "u": ts[b].to_string()}));
+                return;
+            };
+            accepted[a][b] = ok;
+            ctx.count(if ok { "cover:checker-accepts" } else { "cover:checker-rejects" });
+        }
+        // values of the subtype, encoded at it by candid's own encoder
+        let n_vals = 3;
+        for (a, b) in pairs {
+            if !accepted[a][b] || !encodable(&env, &ts[a]) || !vg.inhabited(&ts[a]) {
+                continue;
+            }
+            for _ in 0..n_vals {
+                let mut fuel = *rng.pick(&[4i64, 20, 50]);
+                let Some(v) = vg.gen(rng, &ts[a], &mut fuel) else { continue };
+                let Ok(idl) = to_idl(&env, &ts[a], &v, None) else { continue };
+                let ca = to_candid_type(&ts[a], None);
+                let cb = to_candid_type(&ts[b], None);
+                let args = IDLArgs { args: vec![idl] };
+                let input = |bytes: &[u8]| {
+                    json!({"env": env.to_string(), "subtype": ts[a].to_string(), "supertype": ts[b].to_string(),
+                           "value": v.to_string().chars().take(600).collect::<String>(), "bytes": hex(bytes)})
+                };
+                let bytes = match catch(|| args.to_bytes_with_types(&cenv, std::slice::from_ref(&ca))) {
+                    Ok(Ok(b)) => b,
+                    _ => {
+                        ctx.count("excluded:encode-failed(C10)");
+                        continue;
+                    }
+                };
+                // the reference decoder agrees on what was sent
+                let Ok(d) = decode(&bytes) else {
+                    ctx.count("excluded:reference-cannot-read(C03)");
+                    continue;
+                };
+                let got = catch(|| IDLArgs::from_bytes_with_types_with_config(&bytes, &cenv, std::slice::from_ref(&cb), &quota()));
+                let shape_pair = format!("{}|{}", shape(&env, &ts[a], 3), shape(&env, &ts[b], 3));
+                match got {
+                    Err(p) => ctx.violation(&format!("panic|decode-at-supertype|{}", p.sig()), &p.message, input(&bytes)),
+                    Ok(Err(e)) => {
+                        // the spec's coercion has no finite derivation for some accepted pairs (a non-optional value at
+                        // `type O = opt O`): implementations run into their nesting limit there (spec suite: "fix opt")
+                        let wenv = normalize_wire(&d.env);
+                        let mut hits = Hits::new();
+                        let diverges = {
+                            let mut c = Coercer::new(&wenv, &env, &mut hits);
+                            matches!(c.coerce(&d.values[0], &d.types[0], &ts[b]), Err(f) if f.1)
+                        };
+                        if diverges {
+                            ctx.count("excluded:coercion-diverges");
+                            continue;
+                        }
+                        // is the pair really in the relation? if not, the *checker* is wrong (C05), still a C04 witness
+                        let really = r3::subtype(&env, &ts[a], &ts[b]);
+                        let mu = super::c10::mentions_mu_in_reference(&env, &ts[a]) || super::c10::mentions_mu_in_reference(&env, &ts[b]);
+                        let sig = if mu && really {
+                            "accepted-subtype-fails-to-decode|reference-type-mentions-self-containing-record".to_string()
+                        } else {
+                            format!("accepted-subtype-fails-to-decode|{}|{}", if really { "relation-holds" } else { "checker-accepts-non-subtype" }, err_class(&e))
+                        };
+                        ctx.violation(
+                            &sig,
+                            &format!("the checker accepts {} <: {} but a value of the subtype fails to decode at the supertype: {}", ts[a], ts[b], err_class(&e)),
+                            input(&bytes),
+                        )
+                    }
+                    Ok(Ok(res)) => {
+                        let rv = model_value(&res.args[0]);
+                        if !typed_as(&env, &rv, &ts[b]) {
+                            ctx.violation(
+                                &format!("result-not-of-supertype|{}", shape(&env, &ts[b], 2)),
+                                &format!("decoded {rv} which is not a value of {}", ts[b]),
+                                input(&bytes),
+                            );
+                        }
+                        // equals the spec's coercion
+                        let wenv = normalize_wire(&d.env);
+                        let mut hits = Hits::new();
+                        let want = {
+                            let mut c = Coercer::new(&wenv, &env, &mut hits);
+                            c.coerce(&d.values[0], &d.types[0], &ts[b])
+                        };
+                        match want {
+                            Ok(w) => {
+                                if let Some(df) = diff_all(std::slice::from_ref(&w), std::slice::from_ref(&rv)) {
+                                    ctx.violation("result-differs-from-coercion", &format!("spec coercion (left) vs decoded (right): {df}"), input(&bytes));
+                                } else {
+                                    ctx.count("agree:decodes-at-supertype");
+                                }
+                            }
+                            Err(f) if f.1 => ctx.count("excluded:coercion-diverges"),
+                            Err(f) => ctx.violation("decodes-but-coercion-fails", &format!("decoded {rv} but the spec coercion fails: {}", f.0), input(&bytes)),
+                        }
+                        // indirect via the intermediate type vs direct (only for the chain 0 -> 1 -> 2)
+                        if (a, b) == (0, 1) && accepted[1][2] {
+                            let c1 = to_candid_type(&ts[1], None);
+                            let c2 = to_candid_type(&ts[2], None);
+                            let step2 = catch(|| {
+                                res.to_bytes_with_types(&cenv, std::slice::from_ref(&c1))
+                                    .and_then(|b1| IDLArgs::from_bytes_with_types_with_config(&b1, &cenv, std::slice::from_ref(&c2), &quota()))
+                            });
+                            let direct = catch(|| IDLArgs::from_bytes_with_types_with_config(&bytes, &cenv, std::slice::from_ref(&c2), &quota()));
+                            if let (Ok(Ok(ind)), Ok(Ok(dir))) = (&step2, &direct) {
+                                let (x, y) = (model_value(&ind.args[0]), model_value(&dir.args[0]));
+                                if !tilde(&reserved_null(&x), &reserved_null(&y)) {
+                                    ctx.violation(
+                                        "indirect-differs-from-direct",
+                                        &format!("via {}: {x}; directly at {}: {y} — differ by more than optional values turning into null", ts[1], ts[2]),
+                                        input(&bytes),
+                                    );
+                                } else {
+                                    ctx.count("agree:indirect~direct");
+                                }
+                            } else if accepted[0][2] && matches!(direct, Ok(Err(_))) {
+                                // reported by the (0,2) pair itself
+                            } else if matches!(step2, Ok(Err(_))) && matches!(direct, Ok(Ok(_))) {
+                                ctx.count("observed:indirect-fails-direct-succeeds");
+                            }
+                        }
+                        if ts[a] != ts[b] {
+                            ctx.nontrivial(hash_str(&shape_pair));
+                        }
+                    }
+                }
+            }
+        }
+        ctx.sample(|| json!({"env": env.to_string(), "chain": ts.iter().map(|t| t.to_string()).collect::<Vec<_>>(), "accepted": format!("{accepted:?}")}));
+    });
+    // ---- native: pairs of corpus types whose Candid types the checker relates ----------------------
+    let n_types = reg::len();
+    ctx.cases("native-pairs", 0.4, |ctx, rng| {
+        let i = rng.usize(n_types);
+        // bias the partner towards types that often are supertypes: same leaf under Option, Int for Nat, ...
+        let j = rng.usize(n_types);
+        let (ei, ti) = reg::with(i, |t| t.rtype());
+        let (ej, tj) = reg::with(j, |t| t.rtype());
+        let mut env = ei.clone();
+        let off = env.append(&ej);
+        let tj = tj.shift_refs(off);
+        let Some(ok) = checker_accepts(&env, &ti, &tj) else { return };
+        let (ni, nj) = (reg::with(i, |t| t.name()), reg::with(j, |t| t.name()));
+        if !ok {
+            ctx.count("cover:native-pair-rejected");
+            return;
+        }
+        ctx.count("cover:native-pair-accepted");
+        let mut r2 = Rng::new(rng.next());
+        let Ok((bytes, models)) = reg::with(i, |t| t.encode_gen(&mut r2, 25, 1)) else { return };
+        let input = || json!({"from": ni, "to": nj, "value": models[0].to_string().chars().take(500).collect::<String>(), "bytes": hex(&bytes)});
+        match reg::with(j, |t| t.decode(&bytes, &quota())) {
+            DecOut::Panic(p) => ctx.violation(&format!("panic|native-decode|{}", p.sig()), &p.message, input()),
+            DecOut::Ok { model, .. } => {
+                let _ = model;
+                ctx.count("agree:native-decodes-at-supertype");
+                if ni != nj {
+                    ctx.nontrivial(hash_str(&format!("{ni}|{nj}")));
+                }
+            }
+            DecOut::Err(e) => match host_limit(&e, &nj) {
+                Some(l) => ctx.count(&format!("excluded:host-limit:{l}")),
+                None => {
+                    let really = r3::subtype(&env, &ti, &tj);
+                    let ec = err_class_str(&e);
+                    let sig = if e.contains("is not a tuple type") || e.contains("expect a key-value pair") {
+                        "native-stricter|rust-tuple-or-map-entry|wire-record-not-tuple-shaped".to_string()
+                    } else {
+                        format!(
+                            "accepted-subtype-fails-native-decode|{}|{}|{}|{ec}",
+                            if really { "relation-holds" } else { "checker-accepts-non-subtype" },
+                            ni.split('<').next().unwrap_or(""),
+                            nj.split('<').next().unwrap_or("")
+                        )
+                    };
+                    ctx.violation(&sig, &format!("the checker accepts {ni} <: {nj} (as Candid types) but decoding a {ni} at {nj} fails: {ec}"), input());
+                }
+            },
+        }
+        ctx.sample(input);
+    });
+}
+
+fn reserved_null(v: &RValue) -> RValue {
+    match v {
+        RValue::Reserved => RValue::Null,
+        RValue::Opt(x) => RValue::opt(reserved_null(x)),
+        RValue::Vec(xs) => RValue::Vec(xs.iter().map(reserved_null).collect()),
+        RValue::Record(fs) => RValue::Record(fs.iter().map(|(i, x)| (*i, reserved_null(x))).collect()),
+        RValue::Variant(i, x) => RValue::Variant(*i, Box::new(reserved_null(x))),
+        x => x.clone(),
+    }
+}
